@@ -23,7 +23,7 @@ SURVIVORS = {
  'c03_round_after': ('objects.py', "            new_val = self._round(val * conv_factor , method=self.config.rounding)\n            new_val = self._overflow_action(new_val, val_min, val_max)", "            new_val = self._round(val * conv_factor , method=self.config.rounding) if self.config.overflow == 'saturate' else np.floor(val * conv_factor)\n            new_val = self._overflow_action(new_val, val_min, val_max)"),
  # ---- C04 ---------------------------------------------------------------------------
  'c04_any_all': ('objects.py', "        if not np.equal(val, new_val/conv_factor).all() :", "        if not np.equal(val, new_val/conv_factor).any() :"),
- 'c04_reset_keep': ('objects.py', "        self.status = {\n            'overflow': False,\n            'underflow': False,\n            'inaccuracy': False}", "        self.status['overflow'] = False\n        self.status['underflow'] = False"),
+ 'c04_reset_keep': ('objects.py', "        self.status = {\n            'overflow': False,\n            'underflow': False,\n            'inaccuracy': False,\n            'extended_prec': self.n_word is not None and self.n_word >= _n_word_max}", "        self.status['overflow'] = False\n        self.status['underflow'] = False"),
  'c04_cb_under': ('objects.py', "            self._run_callbacks('on_status_underflow')", "            self._run_callbacks('on_status_overflow')"),
  'c04_under_any': ('objects.py', "        if np.any(new_val < val_min):", "        if np.all(new_val < val_min):"),
  'c04_prop_onevar': ('functions.py', "    # propagate inaccuracy from argument\n    if x.status['inaccuracy']:\n        z.status['inaccuracy'] = True", "    # propagate inaccuracy from argument"),
